@@ -12,7 +12,7 @@ from .. import alphabet as A
 from ..ref import jwk as rjwk, jws as rjws, jwe as rjwe, b64
 from ..ref.jwa import (ENC, KW_SIZE, JWS_KTY, ES, CHASH, HASH, hmac_def, der_decode_sig, aes_kw_wrap, content_encrypt, rsa_pad,
                        concat_kdf, ecdh_otherinfo, pbes2_kek, JWE_ALGS_RFC, JWE_ALGS_1PU)
-from .common import Outcome, Part, viol, call
+from .common import Outcome, Part, viol, call, handed_over, COPY_FORMS
 from . import c16
 
 LEVEL = "exploration"
@@ -225,6 +225,12 @@ def h_jws(ctx):
     if not k.ok:
         return Outcome("import-refused", [], nontrivial=None)
     key = k.value
+    # the key the caller uses may be a copy (copy / pickle protocols) of the one it imported: it declares what the original declares
+    held = ctx.choose("key_held_as", ["as-is"] + (COPY_FORMS if decl and via == "jwk-members" and path == "compact" else []))
+    key = handed_over(key, held)
+    if key is None:
+        return Outcome("not-picklable", [], nontrivial=None)
+    via = via if held == "as-is" else f"{via}, held as {held}"
     seven = path.startswith("7797")
     hdr = {"alg": alg}
     if seven:
@@ -305,6 +311,12 @@ def h_jwe(ctx):
     if not k.ok:
         return Outcome("import-refused", [], nontrivial=None)
     key = k.value
+    # the key the caller uses may be a copy (copy / pickle protocols) of the one it imported: it declares what the original declares
+    held = ctx.choose("key_held_as", ["as-is"] + (COPY_FORMS if decl and via == "jwk-members" and path == "compact" else []))
+    key = handed_over(key, held)
+    if key is None:
+        return Outcome("not-picklable", [], nontrivial=None)
+    via = via if held == "as-is" else f"{via}, held as {held}"
     sender_jwk = None
     if "1PU" in alg:
         skind = kind if jwk["kty"] in ("EC", "OKP") else "P-256"
